@@ -14,7 +14,12 @@ type Value interface{}
 
 // scalars are *Term; concrete strings are Go strings.
 
-type StructV struct{ F []Value }
+// StructV: G holds ghost attributes that travel with the struct value (copied on whole-struct load/store,
+// dropped when any part of the struct is overwritten).
+type StructV struct {
+	F []Value
+	G map[string]Value
+}
 type ArrayV struct{ E []Value }
 type TupleV struct{ E []Value }
 
@@ -299,8 +304,17 @@ func valuesIdentical(a, b Value) bool {
 		if x == y {
 			return true
 		}
+		if len(x.F) != len(y.F) || len(x.G) != len(y.G) {
+			return false
+		}
 		for i := range x.F {
 			if !valuesIdentical(x.F[i], y.F[i]) {
+				return false
+			}
+		}
+		for k, v := range x.G {
+			w, ok := y.G[k]
+			if !ok || !valuesIdentical(v, w) {
 				return false
 			}
 		}
@@ -406,6 +420,16 @@ func mergeVal(c *Term, a, b Value) (Value, bool) {
 				return nil, false
 			}
 			r.F[i] = v
+		}
+		for k, v := range x.G {
+			if w, ok := y.G[k]; ok {
+				if m, ok := mergeVal(c, v, w); ok {
+					if r.G == nil {
+						r.G = map[string]Value{}
+					}
+					r.G[k] = m
+				}
+			}
 		}
 		return r, true
 	case *ArrayV:
